@@ -191,6 +191,111 @@ theorem C19_history_independent (rules : Rules) (w : World) (ops : List Op) (hf 
       | modify o => intro m k' s hm; simp [step, World.lruOf, assoc] at hm
   exact ⟨hfin, (query_fresh ⟨true⟩ rules _ k hfin).2⟩
 
+/-! ### what holds for the tree as it is, in EVERY history (modifiers included) -/
+
+/-- every cached value was computed from the current or an EARLIER version of its object (never invented) -/
+def NoFuture (w : World) : Prop := ∀ m k s, (k, s) ∈ w.lruOf m → s ≤ w.ver k.obj
+
+theorem nofuture_insert (w : World) (k : Key) (l' : List (Key × Nat)) (s : Nat) (hs : s ≤ w.ver k.obj) (hf : NoFuture w)
+    (hl : ∀ e ∈ l', e = (k, s) ∨ e ∈ w.lruOf k.meth) (w' : World)
+    (hv : w'.version = w.version) (hlru : w'.lru = assocSet k.meth l' w.lru) : NoFuture w' := by
+  intro m k' s' hmem
+  have hver : ∀ o, w'.ver o = w.ver o := fun o => by simp [World.ver, hv]
+  rw [hver]
+  unfold World.lruOf at hmem
+  rw [hlru] at hmem
+  by_cases hm : m = k.meth
+  · subst hm
+    rw [assoc_assocSet_same] at hmem
+    rcases hl _ hmem with he | he
+    · cases he; exact hs
+    · exact hf _ k' s' he
+  · rw [assoc_assocSet_ne _ _ _ _ _ hm] at hmem
+    exact hf m k' s' hmem
+
+theorem access_nofuture (rules : Rules) : ∀ (fuel : Nat) (w : World) (k : Key), NoFuture w →
+    (access rules fuel w k).1.version = w.version ∧ NoFuture (access rules fuel w k).1 ∧ (access rules fuel w k).2 ≤ w.ver k.obj := by
+  intro fuel
+  induction fuel with
+  | zero => intro w k hf; exact ⟨rfl, hf, Nat.le_refl _⟩
+  | succ fuel ih =>
+    intro w k hf
+    unfold access
+    cases hlk : lookup k (w.lruOf k.meth) with
+    | some s =>
+      simp only
+      have hs : s ≤ w.ver k.obj := hf _ k s (lookup_mem hlk)
+      refine ⟨by first | rfl | trivial, ?_, hs⟩
+      refine nofuture_insert w k ((k, s) :: (w.lruOf k.meth).filter (fun e => e.1 ≠ k)) s hs hf ?_ _ rfl rfl
+      intro e he
+      rcases List.mem_cons.mp he with h | h
+      · left; exact h
+      · right; exact (List.mem_filter.mp h).1
+    | none =>
+      simp only
+      have key : ∀ (calls : List Call) (acc : World × Nat),
+          (acc.1.version = w.version ∧ NoFuture acc.1 ∧ acc.2 ≤ w.ver k.obj) →
+          let r := calls.foldl (fun (acc : World × Nat) c =>
+            let key : Key := ⟨if c.recv = 0 then k.obj else w.nextTmp + c.recv - 1, c.meth, c.args⟩
+            let (w', s) := access rules fuel acc.1 key
+            (w', if c.recv = 0 then min acc.2 s else acc.2)) acc
+          (r.1.version = w.version ∧ NoFuture r.1 ∧ r.2 ≤ w.ver k.obj) := by
+        intro calls
+        induction calls with
+        | nil => intro acc h; exact h
+        | cons c cs ihc =>
+          intro acc h
+          simp only [List.foldl_cons]
+          apply ihc
+          obtain ⟨hv, hfr, hst⟩ := h
+          have g := ih acc.1 ⟨if c.recv = 0 then k.obj else w.nextTmp + c.recv - 1, c.meth, c.args⟩ hfr
+          refine ⟨g.1.trans hv, g.2.1, ?_⟩
+          by_cases hr : c.recv = 0
+          · simp only [hr, if_true]; exact Nat.le_trans (Nat.min_le_left _ _) hst
+          · simp only [hr, if_false]; exact hst
+      set w0 : World := { w with nextTmp := w.nextTmp + (rules.calls k.meth k.args (w.ver k.obj)).foldl (fun n c => max n c.recv) 0,
+                                  misses := w.misses + 1 } with hw0
+      have hres := key (rules.calls k.meth k.args (w.ver k.obj)) (w0, w0.ver k.obj) ⟨rfl, hf, Nat.le_refl _⟩
+      simp only at hres
+      set r := (rules.calls k.meth k.args (w.ver k.obj)).foldl (fun (acc : World × Nat) c =>
+            let key : Key := ⟨if c.recv = 0 then k.obj else w.nextTmp + c.recv - 1, c.meth, c.args⟩
+            let (w', s) := access rules fuel acc.1 key
+            (w', if c.recv = 0 then min acc.2 s else acc.2)) (w0, w0.ver k.obj) with hr
+      obtain ⟨hv, hfr, hst⟩ := hres
+      have hst' : r.2 ≤ r.1.ver k.obj := by simpa [World.ver, hv] using hst
+      refine ⟨hv, ?_, hst⟩
+      refine nofuture_insert r.1 k (((k, r.2) :: r.1.lruOf k.meth).take (r.1.capOf k.meth)) r.2 hst' hfr ?_ _ rfl rfl
+      intro e he
+      rcases List.mem_cons.mp (List.mem_of_mem_take he) with h | h
+      · left; exact h
+      · right; exact h
+
+/-- **C19_no_future_values** (the tree as it is, ANY history incl. in-place modifiers): a query never returns a
+value newer than the current mesh, and whatever stale value it returns was computed by an earlier query from an
+earlier version of the SAME object — staleness is the only way the working tree departs from history
+independence (there is no cross-object or cross-argument leakage in the model; the tie checks that on the code). -/
+theorem C19_no_future_values (cfg : Cfg) (rules : Rules) (w : World) (ops : List Op) (hf : NoFuture w) :
+    NoFuture (run cfg rules w ops).1 := by
+  induction ops generalizing w with
+  | nil => exact hf
+  | cons op ops ih =>
+    simp only [run]
+    apply ih
+    cases op with
+    | query k =>
+      simp only [step]
+      exact (access_nofuture rules depth { w with hits := 0, misses := 0 } k hf).2.1
+    | modify o =>
+      intro m k s hm
+      simp only [step] at hm ⊢
+      by_cases hc : cfg.invalidate = true
+      · simp [World.lruOf, hc, assoc] at hm
+      · have hm' : (k, s) ∈ w.lruOf m := by simpa [World.lruOf, hc] using hm
+        have := hf m k s hm'
+        by_cases hko : k.obj = o
+        · subst hko; simp only [World.ver, assoc_assocSet_same]; exact Nat.le_succ_of_le this
+        · simp only [World.ver]; rw [assoc_assocSet_ne _ _ _ _ _ hko]; exact this
+
 /-! ### the tree as it is: counterexamples (each replayed on the implementation by the harness) -/
 
 def w0 : World := World.init [(0, 1), (1, 1)]
